@@ -87,6 +87,12 @@ scpi_result_t h_echo(World &w) {
 scpi_result_t h_numbers(World &w) {
     int32_t numbers[2] = {-7, -7};
     SCPI_CommandNumbers(w.ctx, numbers, 2, 1);
+    // a handler that only wants the first suffix (or none): arrays shorter than the number of '#' in its pattern, exact size
+    {
+        XBuf one(sizeof(int32_t)), none(0);
+        SCPI_CommandNumbers(w.ctx, (int32_t *) one.p, 1, 1);
+        SCPI_CommandNumbers(w.ctx, (int32_t *) none.p, 0, 1);
+    }
     w.note(fmt("numbers=%d,%d", numbers[0], numbers[1]));
     return SCPI_RES_OK;
 }
@@ -611,6 +617,8 @@ void instrument_install(World &w, const InstrOpts &o) {
             int32_t nums[1];
             SCPI_CommandNumbers(ww.ctx, nums, 1, 0);
             SCPI_CommandNumbers(ww.ctx, nullptr, 0, 0);
+            XBuf none(0);
+            SCPI_CommandNumbers(ww.ctx, (int32_t *) none.p, 0, 0);
             (void) SCPI_IsCmd(ww.ctx, "TORT:SUB1?");
             return h_torture(ww, oc);
         });
